@@ -364,6 +364,9 @@ func (f *frame) strEqual(a, b Term) Term {
 			for i := 0; i < len(s); i++ {
 				cs = append(cs, mkEq(mkSelect(vc.smem(), bvAdd(strPtr(b), i64(int64(i))), SBV8), bvLit(8, uint64(s[i]))))
 			}
+			if vc.binderDepth > 0 {
+				return mkAnd(cs...)
+			}
 			r := vc.define(f.prefix+"streq", mkAnd(cs...))
 			// interning instance: equal content means the very same string value
 			vc.assume(mkEq(r, mkEq(a, b)))
